@@ -712,6 +712,7 @@ func explore(prop string, eng *engineDef, tier string) int {
 	sort.Strings(keys)
 	exit := 0
 	knownPrinted := map[string]bool{}
+	knownSigs := map[string]int{}
 	var lines []string
 	nUnknown := 0
 	shrinkBudget := 25.0
@@ -728,7 +729,15 @@ func explore(prop string, eng *engineDef, tier string) int {
 			}
 		}
 		rf := &replayFile{Property: prop, Engine: eng.name, Seed: g.best.Seed, Class: g.class, Sig: g.sig, Violation: msg, Config: g.best.Config, Tape: g.best.Tape, History: g.best.History}
+		if os.Getenv("VERIF_LIST_GROUPS") != "" {
+			id := "-"
+			if kf != nil {
+				id = kf.ID
+			}
+			fmt.Printf("group known=%s runs=%d sig=%s\n", id, g.count, g.sig)
+		}
 		if kf != nil {
+			knownSigs[g.sig] += g.count
 			if knownPrinted[kf.ID] {
 				continue
 			}
@@ -786,7 +795,7 @@ func explore(prop string, eng *engineDef, tier string) int {
 		harnessTrouble = fmt.Sprintf("%d of %d runs exhausted the step budget (inconclusive)", inconclusive, agg.runs)
 	}
 	writeEvidence(prop, eng, tier, base, agg.runs, len(agg.sigs), agg.steps, agg.ops, agg.simNs, agg.outcomes, agg.faults, agg.probes,
-		len(agg.pairs), len(agg.points), agg.samples, wall, buildSec, nworkers, budget, agg.violRuns, nUnknown, lines, ovHash)
+		len(agg.pairs), len(agg.points), agg.samples, wall, buildSec, nworkers, budget, agg.violRuns, nUnknown, lines, ovHash, knownSigs)
 	fmt.Printf("check %s %s: runs=%d distinct_schedules=%d steps=%d viol_runs=%d unknown_groups=%d outcomes=%v wall=%.1fs\n",
 		prop, tier, agg.runs, len(agg.sigs), agg.steps, agg.violRuns, nUnknown, agg.outcomes, wall)
 	if exit == 1 {
@@ -895,7 +904,7 @@ func doReplay(prop string, eng *engineDef, path string) int {
 
 func writeEvidence(prop string, eng *engineDef, tier string, seed int64, runs, distinct int, steps, ops, simNs int64,
 	outcomes, faults, probes map[string]int, pairs, points int, samples []result, wall, buildSec float64, nworkers int, budget float64,
-	violRuns, unknownGroups int, lines []string, ovHash string) {
+	violRuns, unknownGroups int, lines []string, ovHash string, knownSigs map[string]int) {
 	type sample struct {
 		Seed     int64          `json:"seed"`
 		Config   map[string]any `json:"config"`
@@ -944,6 +953,7 @@ func writeEvidence(prop string, eng *engineDef, tier string, seed int64, runs, d
 		"violating_runs":              violRuns,
 		"unlisted_violation_groups":   unknownGroups,
 		"report_lines":                lines,
+		"known_finding_signatures":    knownSigs,
 	}
 	ev := map[string]any{
 		"property_id": prop,
